@@ -85,6 +85,16 @@ CHECKS = {
              "data; known findings: data-before-address misrouted, request to another slave while outstanding "
              "misrouted, arbiter starvation under back-to-back traffic (listed)",
         ref="4 (C08)"),
+    "C09": dict(
+        technique="TLA+ flat-memory contracts per master protocol (FlatMemAxiLite/Wb/Axi/Ahb) plus slave-side protocol "
+                  "monitors (SlaveSide) model-checked by TLC (safety + liveness Served) on the closed-loop product with "
+                  "the transition graph of real bridge + stall shim + the repository's own memory",
+        text="AXILite2Wishbone, Wishbone2AXILite, AXILiteSRAM, AXILiteDown/UpConverter, AXILite2CSR, AXILite2AXI, "
+             "Wishbone2AXI, AXI2AXILite, AXI2Wishbone (bursts of 1-4 beats), AHB2Wishbone and two real add_adapter "
+             "chains under every request history and every partner timing the shims allow; nine clauses are invariants.",
+        note="reduced byte alphabets and 2-8 word memories; partners with >=1 cycle ack latency and one queued request; "
+             "two defects repaired, six known findings (listed)",
+        ref="4 (C09)"),
     "C10": dict(
         technique="AMBA burst address rules as TLA+ operators (AxiBurst); requests enumerated by TLC, executed on the real "
                   "AXIBurst2Beat / AXIUp/DownConverter netlists, recorded beats judged by TLA+ case specs; G-mode "
